@@ -207,3 +207,177 @@ Section TermSLR.
     - exact slr_B3.
   Qed.
 End TermSLR.
+
+(** ** LALR(1) *)
+
+Section TermLALR.
+  Variable G : gram.
+  Hypothesis Hvalid : valid_grammar G.
+  Hypothesis Hgenerating : generating G.
+  Variable fuel : nat.
+  Variable C : list (list item1).
+  Hypothesis HC : canonical1 fuel G = Some C.
+  Variable tbl : table.
+  Hypothesis Hb : build_lalr fuel G [] = BuiltOk tbl.
+
+  Let c := ctx_of G.
+  Let G' := augment G.
+  Let ps := prods G'.
+  Let nl := nullables G'.
+  Let fe := firsts G'.
+  Let aug := aug_prod G.
+  Let reps := reps_of C.
+  Let M (R : list item1) := merge_class C R.
+
+  Definition ITl (k : nat) (p : prod) (d : nat) (la : look) : Prop :=
+    exists R, nth_error reps k = Some R /\ In (p, d, la) (M R).
+  Definition CIl (k : nat) (p : prod) (d : nat) : Prop :=
+    exists R, nth_error reps k = Some R /\ core_in (p, d) R.
+
+  Lemma lalr_act k a x : (exists r, lalr_raw fuel G = Some r /\ has (r_action r) (Z.of_nat k) a x) ->
+    find_action (t_action tbl) (Z.of_nat k) a = Some x.
+  Proof.
+    intros [r [Er Hh]]. destruct (table_shapeL G fuel C HC tbl Hb) as [rw [Er' [Hsmall [Hwf Et]]]].
+    rewrite Er in Er'. inversion Er'; subst rw. rewrite Et. cbn [t_action]. now apply lookup_from_cells.
+  Qed.
+
+  Lemma core_ps k R p d : nth_error reps k = Some R -> core_in (p, d) R -> In p ps /\ d <= length (body p).
+  Proof.
+    intros Hk [x [Hx Ex]]. pose proof (reps_nth_reach G fuel C HC k R Hk) as HR.
+    destruct (reach1_spelled G R HR) as [l Hl]. destruct (Hl _ Hx) as [Hp [Hle _]]. rewrite Ex in Hp, Hle. auto.
+  Qed.
+
+  Lemma body_nt_declaredL p B : In p ps -> In (Nt B) (body p) -> In B (nonterms G).
+  Proof.
+    destruct Hvalid as [[_ [V2 V3]] _]. intros [Hp|Hp] HB.
+    - subst p. simpl in HB. destruct HB as [HB|[]]. inversion HB; subst. exact V3.
+    - eauto.
+  Qed.
+
+  Lemma lalr_trans_origin k X k' : trans tbl k X k' ->
+    exists R R', nth_error reps k = Some R /\ nth_error reps k' = Some R' /\ goto1 c R X <> [] /\
+      same_core R' (goto1 c R X) = true.
+  Proof.
+    intros Ht. destruct (table_shapeL G fuel C HC tbl Hb) as [rw [Er [Hsmall [Hwf Et]]]].
+    assert (Hst : exists R, nth_error reps k = Some R /\ class_of reps (goto1 c R X) = Z.of_nat k').
+    { destruct X as [t|B]; simpl in Ht.
+      - apply find_action_In in Ht. rewrite Et in Ht. cbn [t_action] in Ht.
+        apply resolve_cells_In in Ht as [l [H1 H2]].
+        destruct (lalr_cells_sound G fuel C HC rw Er _ _ _ _ H1 H2) as [k0 [R [it [Ek [Hk0 [Hit [_ Htg]]]]]]].
+        apply Nat2Z.inj in Ek. subst k0. exists R. split; [exact Hk0|]. symmetry. exact (Htg _ eq_refl).
+      - apply find_goto_In in Ht. rewrite Et in Ht. cbn [t_goto] in Ht.
+        destruct (rawL_gotos G fuel C HC rw _ _ _ Er Ht) as [k0 [R [Ek [Hk0 [E _]]]]].
+        apply Nat2Z.inj in Ek. subst k0. exists R. split; [exact Hk0|]. symmetry. exact E. }
+    destruct Hst as [R [Hk Hst]].
+    destruct (class_of_spec _ _ _ Hst ltac:(lia)) as [Hne [k2 [R' [E2 [Hk2 Heq]]]]].
+    apply Nat2Z.inj in E2. subst k2. exists R, R'. auto.
+  Qed.
+
+  Lemma lalr_A0 : ITl 0 aug 0 None.
+  Proof.
+    pose proof (reps_nth_0 G fuel C HC) as H0. fold reps in H0.
+    eexists. split; [exact H0|]. apply merge_class_In. eexists. split; [exact (reps_nth_C G fuel C HC 0 _ H0)|].
+    split; [apply same_core_refl|]. apply closure1_incl. now left.
+  Qed.
+
+  Lemma lalr_A1 k p d la q r : ITl k p d la -> nth_error (body p) d = Some (Nt (head q)) -> In q ps ->
+    compatL G (skipn (S d) (body p)) la r -> ITl k q 0 (hd_error r).
+  Proof.
+    intros [R [Hk Hit]] Hd Hq Hc. exists R. split; [exact Hk|].
+    apply (M_closed G Hvalid fuel C HC R (p, d, la) (head q) q (hd_error r) Hit); auto.
+    exact (compat_la G Hvalid _ _ _ Hc).
+  Qed.
+
+  Lemma lalr_A2 k p d la X : ITl k p d la -> nth_error (body p) d = Some X ->
+    exists k', trans tbl k X k' /\ ITl k' p (S d) la.
+  Proof.
+    intros [R [Hk Hit]] Hd.
+    destruct (goto_stateL G Hvalid fuel C HC k R p d la X Hk Hit Hd) as [k' [R' [Hst [Hk' Hit']]]].
+    exists k'. split; [|exists R'; auto].
+    destruct (table_shapeL G fuel C HC tbl Hb) as [rw [Er [Hsmall [Hwf Et]]]].
+    destruct X as [t|B]; simpl.
+    - apply lalr_act. exists rw. split; [exact Er|].
+      destruct (lalr_has G fuel C HC rw k R (p, d, la) Er Hk Hit) as [Hsh _].
+      rewrite <- Hst. now apply Hsh.
+    - apply (goto_lookupL G fuel C HC tbl Hb rw k R B k' Er Et Hk); auto.
+      destruct (core_ps k R p d Hk (M_core C _ R Hit)) as [Hp _].
+      apply (body_nt_declaredL p B Hp). eapply nth_error_In; eauto.
+  Qed.
+
+  Lemma lalr_A3 k q la : ITl k q (length (body q)) la -> head q <> fresh_nt G ->
+    find_action (t_action tbl) (Z.of_nat k) la = Some (Reduce q).
+  Proof.
+    intros [R [Hk Hit]] Hnf.
+    destruct (table_shapeL G fuel C HC tbl Hb) as [rw [Er _]].
+    apply lalr_act. exists rw. split; [exact Er|].
+    destruct (lalr_has G fuel C HC rw k R (q, length (body q), la) Er Hk Hit) as [_ [Hrd _]].
+    apply Hrd; auto. unfold is_complete, core_of. simpl. apply Nat.eqb_refl.
+  Qed.
+
+  Lemma cl_cores (P : prod -> nat -> Prop) K :
+    (forall p d q, P p d -> nth_error (body p) d = Some (Nt (head q)) -> In q ps -> P q 0) ->
+    (forall x, In x K -> P (fst (core_of x)) (snd (core_of x))) ->
+    forall y, core_in y (closure1 (c_nterms c) (c_nl c) (c_fe c) (c_ps c) K) -> P (fst y) (snd y).
+  Proof.
+    intros Hcl HK y [x [Hx Ex]]. subst y. unfold closure1 in Hx.
+    apply (closure1_coresP (c_nl c) (c_fe c) (c_ps c) (fun y => P (fst y) (snd y))) with (fuel := S (length (c_ps c) * S (c_nterms c))) (I := K); auto.
+    intros p d a B q Hp Hd _ Hq Hh. simpl in *. apply (Hcl p d q); auto. now rewrite Hh.
+  Qed.
+
+  Lemma lalr_B0 (P : prod -> nat -> Prop) : P aug 0 ->
+    (forall p d q, P p d -> nth_error (body p) d = Some (Nt (head q)) -> In q ps -> P q 0) ->
+    forall p d, CIl 0 p d -> P p d.
+  Proof.
+    intros H0 Hcl p d [R [Hk Hci]]. pose proof (reps_nth_0 G fuel C HC) as E0. fold reps in E0.
+    rewrite E0 in Hk. inversion Hk; subst R.
+    apply (cl_cores P [(aug_prod G, 0, None)] Hcl) with (y := (p, d)); auto.
+    intros x [Hx|[]]. subst x. exact H0.
+  Qed.
+
+  Lemma lalr_B1 k X k' : trans tbl k X k' -> forall P : prod -> nat -> Prop,
+    (forall p d, CIl k p d -> nth_error (body p) d = Some X -> P p (S d)) ->
+    (forall p d q, P p d -> nth_error (body p) d = Some (Nt (head q)) -> In q ps -> P q 0) ->
+    forall p d, CIl k' p d -> P p d.
+  Proof.
+    intros Ht P Hker Hcl p d [R2 [Hk2 Hci]].
+    destruct (lalr_trans_origin _ _ _ Ht) as [R [R' [Hk [Hk' [Hne Hsame]]]]].
+    rewrite Hk' in Hk2. inversion Hk2; subst R2. apply (same_core_spec _ _ Hsame) in Hci.
+    destruct (goto1_nonempty_kernel G R X Hne) as [Eg _]. fold c in Eg. rewrite Eg in Hci.
+    apply (cl_cores P (goto1_kernel R X) Hcl) with (y := (p, d)); auto.
+    intros x Hx. apply goto1_kernel_items in Hx as [d1 [Hs [Hi Hn]]]. rewrite Hs.
+    apply Hker; auto. exists R. split; auto. eexists. split; [exact Hi|reflexivity].
+  Qed.
+
+  Lemma lalr_B2 k X k' : trans tbl k X k' -> exists p d, CIl k p d /\ nth_error (body p) d = Some X.
+  Proof.
+    intros Ht. destruct (lalr_trans_origin _ _ _ Ht) as [R [R' [Hk [Hk' [Hne Hsame]]]]].
+    destruct (goto1_nonempty_kernel G R X Hne) as [_ Hkn]. destruct (goto1_kernel R X) as [|x K] eqn:E; [congruence|].
+    destruct (goto1_kernel_items X R x) as [d [Hs [Hi Hn]]]; [rewrite E; now left|].
+    exists (fst (core_of x)), d. split; [|exact Hn]. exists R. split; auto. eexists. split; [exact Hi|reflexivity].
+  Qed.
+
+  Lemma lalr_B3 k X k' : trans tbl k X k' -> exists p d, CIl k' p d.
+  Proof.
+    intros Ht. destruct (lalr_trans_origin _ _ _ Ht) as [R [R' [Hk [Hk' [Hne Hsame]]]]].
+    destruct (goto1 c R X) as [|y K] eqn:E; [congruence|].
+    exists (fst (core_of y)), (snd (core_of y)), R'. split; auto.
+    apply (same_core_spec _ _ Hsame). exists y. split; [now left|]. now destruct (core_of y).
+  Qed.
+
+  Theorem lalr_no_hang w : exists f, parse f tbl w <> Hang.
+  Proof.
+    apply (lr_no_hang G Hvalid Hgenerating tbl _
+             (lalr_table_ok G (proj1 (proj1 Hvalid)) fuel C HC [] tbl Hb)
+             (lalr_complete G Hvalid fuel C HC tbl Hb) ITl CIl).
+    - intros k p d la [R [Hk Hit]]. exists R. split; auto. exact (M_core C _ R Hit).
+    - exact lalr_A0.
+    - exact lalr_A1.
+    - exact lalr_A2.
+    - exact lalr_A3.
+    - intros k p d [R [Hk Hci]]. exact (core_ps k R p d Hk Hci).
+    - exact lalr_B0.
+    - exact lalr_B1.
+    - exact lalr_B2.
+    - exact lalr_B3.
+  Qed.
+End TermLALR.
